@@ -41,6 +41,11 @@ type Case struct {
 	Reply     []byte `json:"reply,omitempty"`
 	ReplyJSON string `json:"reply_json,omitempty"`
 	Note      string `json:"note,omitempty"`
+	// c04-seq: a stateful sequence on one mux (rules, handler-owned asset
+	// buffers, steps).
+	Rules  []RuleSpec `json:"rules,omitempty"`
+	Assets [][]byte   `json:"assets,omitempty"`
+	Steps  []seqStep  `json:"steps,omitempty"`
 }
 
 type viol struct{ key, what string }
@@ -48,7 +53,9 @@ type viol struct{ key, what string }
 // outcome of one execution, shared by run and replay.
 type outcome struct {
 	viols    []viol
-	distinct string // non-empty: a non-trivial observation under this shape key
+	distinct string   // non-empty: a non-trivial observation under this shape key
+	more     []string // further shape keys observed by a multi-step case
+	evals    int      // executions beyond the first (multi-step cases)
 	counts   []string
 	inconcl  string
 }
@@ -757,6 +764,8 @@ func execCase(e *env, c *Case) outcome {
 		return execC07(e, c)
 	case "c04":
 		return execC04(e, c)
+	case "c04-seq":
+		return execSeq(e, c)
 	}
 	return outcome{inconcl: "unknown case kind " + c.Kind}
 }
@@ -765,7 +774,10 @@ var sampleClock int
 
 // apply records an outcome in the run. It returns false on violation.
 func apply(r *mon.Run, c *Case, o outcome) bool {
-	r.Eval(1)
+	r.Eval(1 + o.evals)
+	for _, k := range o.more {
+		r.Distinct(k)
+	}
 	for _, n := range o.counts {
 		r.Count(n, 1)
 	}
@@ -775,7 +787,7 @@ func apply(r *mon.Run, c *Case, o outcome) bool {
 	if o.distinct != "" {
 		r.Distinct(o.distinct)
 		sampleClock++
-		if sampleClock%1499 == 1 && len(c.Req.Body)+len(c.Msg)+len(c.Reply)+len(c.Req.RawQuery) < 1500 {
+		if sampleClock%1499 == 1 && c.Kind != "c04-seq" && len(c.Req.Body)+len(c.Msg)+len(c.Reply)+len(c.Req.RawQuery) < 1500 {
 			r.Sample(c)
 		}
 	}
